@@ -252,6 +252,14 @@ fn cases(tier: &str, seed: u64) -> Vec<Case> {
             }
         }
     }
+    // in the remaining state classes (a non-empty pool, a committed database, after a reorg, a parked transaction about
+    // to be found expired) every method's valid requests are issued as they are
+    for si in (0..states.len()).filter(|i| !state_sel.contains(i)) {
+        let reqs = all_requests(&Ctx::of(&dummy));
+        for (ri, req) in reqs.iter().enumerate() {
+            v.push(Case::Request { state: si, req: Req { label: format!("#{}", ri), ..req.clone() }, what: format!("{} [{}] default", req.method, req.label) });
+        }
+    }
     // large strings once per parameter kind
     for (m, p) in [
         ("brc20_deploy", json!({"from_pkscript": "ab".repeat(600_000), "data": "0x00", "timestamp": 1, "hash": zero32(), "tx_idx": 0, "inscription_id": "x", "inscription_byte_len": 1, "op_return_tx_id": zero32()})),
